@@ -20,6 +20,7 @@ import (
 	"io"
 	"io/fs"
 	"math/rand"
+	"mime"
 	"net"
 	netmail "net/mail"
 	"os"
@@ -1118,7 +1119,15 @@ func Build(p Prog, seed int64, failSlot int, failWhen string, tmpdir string) (*B
 		if embed {
 			disp, kind = "inline", "embed"
 		}
-		b.Slots = append(b.Slots, Slot{Kind: kind, Ctype: ctype, Declared: fs.Ctype, Cte: cte, Disp: disp,
+		declared := fs.Ctype
+		if !declared && src != "embedfs" { // no type given: the documented derivation from the file extension (the MIME table of this very process), else octet-stream
+			mt := mime.TypeByExtension(filepath.Ext(nameo))
+			if mt == "" {
+				mt = "application/octet-stream"
+			}
+			ctype, declared = strings.ToLower(strings.TrimSpace(strings.SplitN(mt, ";", 2)[0])), true
+		}
+		b.Slots = append(b.Slots, Slot{Kind: kind, Ctype: ctype, Declared: declared, Cte: cte, Disp: disp,
 			Fname: Sanitize(name), Desc: NormWS(desc), Cid: cid, content: content})
 		return nil
 	}
@@ -1864,6 +1873,22 @@ func (rn *Runner) Run() {
 				}
 			})
 			n = int64(out.Len())
+		case "ReaderCopy": // a few bytes are read through Read (a caller sniffing the start), the rest is taken with io.Copy - which uses WriteTo where a reader offers it
+			guard(func() {
+				reader = built.Msg.NewReader()
+				head := make([]byte, 64)
+				hn, herr := io.ReadFull(reader, head)
+				out.Write(head[:hn])
+				if herr == nil {
+					_, oerr = io.Copy(&out, reader)
+				} else if herr != io.ErrUnexpectedEOF && herr != io.EOF {
+					oerr = herr
+				}
+				if oerr == nil {
+					oerr = reader.Error()
+				}
+			})
+			n = int64(out.Len())
 		case "UpdateReader":
 			guard(func() {
 				if reader == nil {
@@ -2075,6 +2100,44 @@ func (rn *Runner) Run() {
 				}
 				r.Emit("out", "k", k, "op", "sink", "ok", false, "err", werr != nil, "panic", pan != "", "n", n,
 					"accepted", s.accepted, "len", len(first), "id", 0, "faulted", true, "text", clipErr(werr, pan))
+			}
+		case "osfile":
+			// the destination is a file of the operating system that cannot take the message: a read-only handle, a closed
+			// handle, a device without space. Nothing is accepted; the count must say so.
+			for _, kind := range []string{"readonly", "closed", "devfull"} {
+				fb, err := Build(sc.Prog, seed, 0, "", rn.TmpDir)
+				if err != nil {
+					rn.Infra = err
+					return
+				}
+				path := filepath.Join(rn.TmpDir, fmt.Sprintf("dst-%d-%s.eml", rn.T, kind))
+				var dst *os.File
+				switch kind {
+				case "readonly":
+					if werr := os.WriteFile(path, nil, 0o600); werr == nil {
+						dst, err = os.Open(path)
+					}
+				case "closed":
+					if dst, err = os.Create(path); err == nil {
+						_ = dst.Close()
+					}
+				case "devfull":
+					dst, err = os.OpenFile("/dev/full", os.O_WRONLY, 0)
+				}
+				if err != nil || dst == nil { // (no such device here: nothing to run)
+					fb.Close()
+					continue
+				}
+				n, werr, pan := safeWriteTo(fb.Msg, dst)
+				_ = dst.Close()
+				fb.Close()
+				accepted := 0
+				if st, serr := os.Stat(path); serr == nil && kind != "devfull" {
+					accepted = int(st.Size())
+				}
+				_ = os.Remove(path)
+				r.Emit("out", "k", 0, "op", "osfile-"+kind, "ok", false, "err", werr != nil, "panic", pan != "", "n", n,
+					"accepted", accepted, "len", len(first), "id", 0, "faulted", true, "text", clipErr(werr, pan))
 			}
 		case "short", "shortnil":
 			// every write call of the rendering is the short one in one run
